@@ -97,6 +97,17 @@ func (cl *CachedLocations) Count() int {
 //
 // Assumes a lock for the CachedLocations.
 func (cls *CachedLocations) expire(ctx *Context, sys *System, name string, released bool) (*Location, bool) {
+	users := 1
+	if released {
+		users = -1
+	}
+	return cls.expireUsers(ctx, sys, name, users)
+}
+
+// expireUsers does the work for expire.  The count of requests that
+// use the entry changes by 'users' (1: another one, -1: one is done,
+// 0: just looking); an entry does not expire while it has users.
+func (cls *CachedLocations) expireUsers(ctx *Context, sys *System, name string, users int) (*Location, bool) {
 	// Assumes lock
 	Log(INFO, ctx, "CachedLocations.expire", "name", name)
 	cl, have := cls.locs[name]
@@ -104,9 +115,12 @@ func (cls *CachedLocations) expire(ctx *Context, sys *System, name string, relea
 	dead := false
 	if have {
 		cl.Lock()
-		cl.Pending = !released
+		cl.Pending += users
+		if cl.Pending < 0 {
+			cl.Pending = 0
+		}
 		Log(INFO, ctx, "CachedLocations.expire", "name", name, "cached", "exists")
-		if cl.Pending || cl.Expires.After(time.Now()) {
+		if 0 < cl.Pending || cl.Expires.After(time.Now()) {
 			Log(INFO, ctx, "CachedLocations.expire", "name", name, "cached", "live")
 			loc = cl.Location
 		} else {
@@ -125,10 +139,22 @@ func (cls *CachedLocations) expire(ctx *Context, sys *System, name string, relea
 //
 // TTL can be 'Never', 'Forever', or anything in between.
 func (cls *CachedLocations) Open(ctx *Context, sys *System, name string, check bool) (*Location, error) {
+	return cls.open(ctx, sys, name, check, true)
+}
+
+// open does the work for Open.  A caller that will call Release when
+// it is done says so with 'using'; until then the entry can't expire
+// (and be loaded again while this caller still works on the old
+// instance).
+func (cls *CachedLocations) open(ctx *Context, sys *System, name string, check bool, using bool) (*Location, error) {
 	Log(INFO, ctx, "CachedLocations.Open", "name", name)
 	cls.Lock()
 
-	loc, dead := cls.expire(ctx, sys, name, false)
+	users := 0
+	if using {
+		users = 1
+	}
+	loc, dead := cls.expireUsers(ctx, sys, name, users)
 
 	var err error
 	if loc == nil || dead {
@@ -143,6 +169,7 @@ func (cls *CachedLocations) Open(ctx *Context, sys *System, name string, check b
 		Log(INFO, ctx, "CachedLocations.Open", "name", name, "expires", expires.String())
 		cl := &CachedLocation{
 			Expires: expires,
+			Pending: users,
 		}
 
 		if ttl != Never || ctl.CachePending {
@@ -154,9 +181,13 @@ func (cls *CachedLocations) Open(ctx *Context, sys *System, name string, check b
 		// lock).  That's important because loading a location
 		// can take a long time.  We'd like to be able to open
 		// locations concurrently.
+		// Lock the new entry before letting go of the cache:
+		// otherwise another request could find it unlocked and
+		// still empty, and load the location a second time.
+		cl.Lock()
 		cls.Unlock()
 		verifPoint("CachedLocations.Open.beforeGet")
-		return cl.Get(ctx, sys, name, check)
+		return cl.get(ctx, sys, name, check)
 	}
 
 	cls.Unlock()
@@ -205,7 +236,9 @@ func (cls *CachedLocations) Release(ctx *Context, sys *System, name string) erro
 type CachedLocation struct {
 	sync.Mutex
 	Expires time.Time
-	Pending bool
+
+	// Pending is the number of requests that are using the location.
+	Pending int
 	*Location
 }
 
@@ -239,8 +272,13 @@ func (sys *System) OpenLocation(ctx *Context, name string, checkExists bool) (*L
 
 // Get returns the location after opening it once.
 func (cl *CachedLocation) Get(ctx *Context, sys *System, name string, checkExists bool) (*Location, error) {
-	Log(INFO, ctx, "CachedLocation.Get", "name", name, "checking", checkExists)
 	cl.Lock()
+	return cl.get(ctx, sys, name, checkExists)
+}
+
+// get does the work for Get.  Assumes the lock, which it releases.
+func (cl *CachedLocation) get(ctx *Context, sys *System, name string, checkExists bool) (*Location, error) {
+	Log(INFO, ctx, "CachedLocation.Get", "name", name, "checking", checkExists)
 	loc := cl.Location
 	var err error
 	if loc == nil {
@@ -792,6 +830,7 @@ func (sys *System) CreateLocation(ctx *Context, location string) (bool, error) {
 	atomic.AddUint64(&sys.stats.TotalCalls, uint64(1))
 
 	loc, err := sys.findLocation(ctx, location, false)
+	defer sys.releaseLocation(ctx, location)
 	ctx.SetLoc(loc)
 
 	var exists bool
@@ -864,7 +903,8 @@ func legalFactWithout(ctx *Context, fact string, prop string) error {
 //
 // Just calls 'findLocation(,,false)'.
 func (sys *System) GetLocation(ctx *Context, name string) (*Location, error) {
-	return sys.findLocation(ctx, name, false)
+	// The caller won't tell us when it is done with the location.
+	return sys.CachedLocations.open(ctx, sys, name, false, false)
 }
 
 // findLocation is the main function for getting a location.
@@ -915,6 +955,7 @@ func (sys *System) GetLastUpdatedMem(ctx *Context, location string) (string, err
 	atomic.AddUint64(&sys.stats.TotalCalls, uint64(1))
 	Log(INFO, ctx, "System.GetSize", "location", location)
 	loc, err := sys.findLocation(ctx, location, true)
+	defer sys.releaseLocation(ctx, location)
 	updated := ""
 	if err == nil {
 		updated = loc.Updated(ctx)
